@@ -1,7 +1,7 @@
 # C09 - results are a function of workspace and configuration, not of scheduling (DESIGN 5, C09)
 import vlib
 from vlib import Leg, hexs
-from c18 import Runner18, hx, gen_tree, DIRS, BASES
+from c18 import Runner18, hx, gen_tree, DIRS, BASES, subset_canon
 
 NAMES = ["g", "h", "k", "init", "M"]
 FILES = ["a.lua", "b.lua", "c.lua", "d/e.lua", "d/a.lua", "z.lua"]
@@ -630,6 +630,130 @@ def gen_srvrep_bigtable(rng, tier):
     return out
 
 
+# the repair fixes/C09-param-default-race.diff is in /repo: the leg c09.paramdefault decides (until then the deviations it
+# sees on the unrepaired code - about one fresh start in twenty - are recorded in the evidence only)
+PARAM_DEFAULT_FIXED = True
+
+
+def gen_paramdefault(rng, tier):
+    """project mode with several entry files that all call the SAME functions with fewer arguments than parameters: whether
+    that is reported (type 10, "call func param num(0) < func define param num(3)") depends on the `---@param x? T`
+    annotations of the function, looked up lazily at the first such call and memoised on the FuncInfo - which the project
+    goroutines share. The diagnostic set of every file must be the same on every fresh start (found by a seeding agent:
+    the memo's flag was published before its value, a concurrent project saw "no annotation" and dropped the warning)."""
+    n = {"quick": 3, "thorough": 30, "search": 2}[tier]
+    nreps = {"quick": 10, "thorough": 16, "search": 8}[tier]
+    out = []
+    for cn in range(n):
+        ne = rng.choice([4, 8, 12, 16])
+        nf = rng.choice([150, 200, 300])
+        lib = []
+        for i in range(nf):
+            k = rng.randrange(4) if cn % 3 == 2 else 0
+            if k == 0:      # all optional but the first: gN() is one argument short
+                lib += ["---@param a number", "---@param b? number", "---@param c? number", "function g%d(a, b, c) end" % i]
+            elif k == 1:    # every parameter optional: no warning
+                lib += ["---@param a? number", "---@param b? string", "function g%d(a, b) end" % i]
+            elif k == 2:    # no annotation at all: no warning
+                lib += ["function g%d(a, b) end" % i]
+            else:
+                lib += ["---@param a number", "---@param b number", "function g%d(a, b) end" % i]
+        entries = ["e%d.lua" % (j + 1) for j in range(ne)]
+        files = [("luahelper.json", '{"ProjectFiles":[%s]}\n' % ",".join('"%s"' % e for e in entries)), ("lib.lua", "\n".join(lib) + "\n")]
+        for e in entries:
+            order = list(range(nf))          # the same order in every entry: the goroutines reach a function together
+            if cn % 3 == 2 and rng.random() < 0.3:
+                rng.shuffle(order)
+            files.append((e, 'require("lib")\n' + "".join("g%d()\n" % i for i in order)))
+        steps = ["S:open:2", "S:diags"]
+        out.append("%d {STABLE} %s %s" % (nreps, " ".join("F:%s:%s" % (hx(f), hx(c)) for f, c in files), " ".join(steps)))
+    return out
+
+
+# ----------------------------------------------------------------------------- c09.entryorder
+HEAVY_LINE = 'big.v# = { n = #, s = "s#", t = { #, # } }'
+
+
+def gen_entryorder(rng, tier):
+    """project mode with SEVERAL entry files whose projects take very different times: the entry that comes first in NAME
+    order requires a file of tens of thousands of lines, so its project goroutine finishes last (under GOMAXPROCS 1, 2 and
+    the default alike). A global table T is defined by a file all projects load; every project loads one file of its own
+    that adds the SAME member T.f (different parameter lists, different lines). The members other files add to a global
+    table go into the table's first-phase record, which all projects share, first one wins: the projects must be visited
+    in entry-name order (fix ebeeeaa), not in the order their goroutines finish (seeded change C09-6). go-to-definition
+    on `T.f`, asked in every entry file, must be the singleton {adder of the name-first project} on every fresh start.
+    Controls: the heavy file in the name-LAST project (finishing order = name order), ProjectFiles listed in another
+    order than by name, three entries, the heavy project's adder required before / after the heavy file.
+    NOT covered by the Coq model: Merge.member_provider is the provider inside ONE project (files of second.AllFiles in
+    sorted order); the provider across projects - find over the concatenation of the projects' sorted file lists in sorted
+    entry order, restricted to projects whose table has T - is the reference computed here (no theorem)."""
+    n = {"quick": 4, "thorough": 40, "search": 3}[tier]
+    nreps = {"quick": 3, "thorough": 6, "search": 3}[tier]
+    out = []
+    for k in range(n):
+        ne = 2 if rng.random() < 0.7 else 3
+        stems = rng.sample(["entry1", "entry2", "main", "m2", "app", "zz_tool", "Boot"], ne)
+        entries = [x + ".lua" for x in stems]
+        by_name = sorted(entries)                         # sort.Strings: byte order
+        heavy_of = by_name[0] if (k < 2 or rng.random() < 0.75) else by_name[-1]
+        listed = list(entries)
+        rng.shuffle(listed)
+        tform = rng.choice(["T = {}", "T = {}", "_G.T = {}"])
+        tfile = rng.choice(["common.lua", "lib/tbl.lua"])
+        files = [("luahelper.json", '{"ProjectFiles": [%s]}\n' % ", ".join('"%s"' % e for e in listed)), (tfile, tform + "\n")]
+        adder, steps, exp_of = {}, [], {}
+        for i, e in enumerate(by_name):
+            a = "add_%s.lua" % chr(ord("a") + (ne - 1 - i if rng.random() < 0.5 else i))   # adder names not in entry order
+            while a in adder.values():
+                a = "x" + a
+            adder[e] = a
+            pad = rng.randrange(0, 4)
+            ps = ", ".join("p%d" % j for j in range(i + 1))
+            if rng.random() < 0.6:
+                text, col = "function T.f(%s)\n  return %d\nend\n" % (ps, i), 11
+            else:
+                text, col = "T.f = function(%s) return %d end\n" % (ps, i), 2
+            files.append((a, "\n" * pad + text))
+            exp_of[e] = "define=[%s@%d:%d-%d:%d]" % (a, pad, col, pad, col + 1)
+        nheavy = rng.choice([30000, 30000, 40000])
+        for e in by_name:
+            req = ['require("%s")' % tfile[:-4].replace("/", "."), 'require("%s")' % adder[e][:-4]]
+            if e == heavy_of:
+                req.insert(rng.choice([1, 2]), 'require("big")')
+            files.append((e, "\n".join(req + ["T.f(1)"]) + "\n"))
+        items = ["F:%s:%s" % (hx(f), hx(c)) for f, c in files]
+        items.insert(rng.randrange(1, len(items) + 1), "R:%s:%d:%s:%s:%s" % (hx("big.lua"), nheavy, hx("local big = {}\n"), hx(HEAVY_LINE), hx("return big\n")))
+        names = [bytes.fromhex(it.split(":")[1]).decode() for it in items]
+        for e in by_name:
+            ei = names.index(e)
+            steps += ["S:open:%d" % ei, "S:define:%d:%d:2" % (ei, 3 if e == heavy_of else 2)]
+        want = exp_of[by_name[0]]
+        out.append("%d %s %s %s" % (nreps, ";".join("{%s}" % want for _ in by_name), " ".join(items), " ".join(steps)))
+    return out
+
+
+def entryorder_describe(c):
+    try:
+        dec = lambda h: bytes.fromhex(h).decode("latin1")
+        f = c.split(" ")
+        fs = [x.split(":") for x in f[2:] if x.startswith("F:")]
+        big = [x.split(":") for x in f[2:] if x.startswith("R:")]
+        return ("expected %s | " % f[1]) + " || ".join(dec(x[1]) + ": " + dec(x[2]).replace("\n", " / ") for x in fs)[:900] + \
+               "".join(" || %s: %s lines `%s`" % (dec(x[1]), x[2], dec(x[4])) for x in big)
+    except Exception:
+        return c[:200]
+
+
+class Runner09(Runner18):
+    def eval_cases(self, leg, cases):
+        if getattr(leg, "py_reference", False):
+            # no extracted model for this leg: the reference answer travels in the case (second field, computed by the
+            # generator as described there) and takes the place of both the model's and the spec's observable
+            impl = vlib.run_worker([self.impl_exe, leg.name], cases, leg.per_case_s, leg.jobs)
+            return [(c, subset_canon(i, c.split(" ")[1]), c.split(" ")[1], c.split(" ")[1], "-") for c, i in zip(cases, impl)]
+        return super().eval_cases(leg, cases)
+
+
 LEGS = [
     Leg("c09.merge", gen_merge, shrink=shrink_items, nontrivial=merge_nontrivial, describe=merge_describe),
     Leg("c09.genmaps", lambda rng, tier: gen_merge(rng, tier, 3000), shrink=shrink_items, nontrivial=merge_nontrivial,
@@ -641,21 +765,27 @@ LEGS = [
         per_case_s=20, jobs=6, nontrivial=lambda c: True),
     Leg("c09.projtable", gen_projtable, describe=projtable_describe, per_case_s=20, jobs=6,
         nontrivial=lambda c: True),
+    Leg("c09.entryorder", gen_entryorder, describe=entryorder_describe, per_case_s=90, jobs=4, nontrivial=lambda c: True),
+    Leg("c09.paramdefault", gen_paramdefault, describe=lambda c: "diagnostics over fresh starts | " + srvrep_describe(c)[:600], per_case_s=60, jobs=4,
+        nontrivial=lambda c: True, deciding=PARAM_DEFAULT_FIXED),
 ]
 for l in LEGS[1:]:
     l.set_valued = True
+LEGS[-1].py_reference = LEGS[-2].py_reference = True
 
 TRUSTED = vlib.TRUSTED_COMMON + [
     "modelled, tied by correspondence: AnalysisThird.JudgeShouldInsertGlobalInfo / InsertThirdGlobalGMaps / FindThirdGlobalGInfo, the loop of generateAllGlobalMaps (hook VerifC09GenerateAllGlobalMaps runs the real one), calcMatchStrScore / GetBestMatchReferFile",
     "Go's map iteration order, sort.Sort and goroutine completion order are modelled as arbitrary permutations; set-valued observables: the implementation's answers over repetitions (freshly built maps, rotated insertion order) must lie in the model's set of possible answers, which is a singleton for the repaired code (fixes/C09-deterministic-order.diff), so any second answer is a violation",
     "project mode (luahelper.json with ProjectFiles), modelled: SingleProjectResult.InsertGlobalGMaps / FindGlobalGInfo and the three loops of checkOneProject over second.AllFiles (project_merge_ws, member_provider), findMaxSecondProject (pick_project); tied by leg c09.projtable: go-to-definition of the REAL server (one fresh process per run) on names several project files define = the singleton the model computes; the file set of a project (scanProjectAllFiles) is computed by the driver as the closure of the entry under the generated references; the driver also supplies the columns of the definitions",
     "not modelled, guarded by the repetition leg c09.srvrep only (singleton demanded): class merge, symbol / references cut, the concurrent scoring of workspace symbols (several files, more than 200 symbols, non-empty queries repeated on the same and on fresh servers), hover / references / diagnostics in project mode; sessions with several project entry files AND members added to a global table by other files (finding C09-project-shared-members, fixed ebeeeaa) are guarded by the repetition leg only",
+    "leg c09.entryorder (several project entry files, the project that comes first by entry name much slower than the others: the members that files of different projects add to a shared global table; definition on T.f over fresh starts under GOMAXPROCS default / 2 / 1): the reference answer - the adder of the first project in sort.Strings order of the entry names - is computed by the generator in checks/c09.py, NOT by the extracted model (Merge.member_provider is the provider inside one project; across projects = find over the concatenation of the projects' sorted file lists in sorted entry order: no theorem)",
+    "leg c09.paramdefault (several entry files calling the same functions with fewer arguments than parameters; the lazily memoised FuncInfo.ParamDefaultNum is shared by the project goroutines): diagnostics identical over fresh starts; reference {STABLE} by the generator; the leg decides once PARAM_DEFAULT_FIXED is set (fixes/C09-param-default-race.diff applied)",
     "c09.project: whole analyses repeated in one process under GOMAXPROCS 1/2/16 (map seeds are per iteration in Go); the model's prediction is 'every workspace is stable' (tie workspaces, members added to a global table from several files and equally scored module candidates included): the per-file analyses themselves are not modelled here",
 ]
 
 
 def main(tier, seed):
-    r = Runner18("C09", tier, seed)
+    r = Runner09("C09", tier, seed)
     r.build()
     can_run = r.can_run()
     if can_run:
